@@ -21,8 +21,16 @@ class NotLeafShaped(Exception):
     pass
 
 
-def normalise(body, is_block):
-    """R8.  Returns (normalised text, list of rewrites).  Raises NotLeafShaped."""
+_MAPERR = re.compile(r"\s*\.map_err\(\|e\| env\.error\(e\)\)")
+_POP = re.compile(r"&?env\s*\.pop\(([^()]*)\)\?")
+_CTRL = re.compile(r"\benv\s*\.(push|exec|call|pop_n|push_all|truncate_stack|remove_n|insert_stack)\b|\|[\w ,]*\||\bif\b|\bfor\b|\bwhile\b|\bloop\b|\breturn\b|\bmatch\b|#\[cfg")
+
+
+def normalise(body, is_block, lenient=False):
+    """R8.  Returns (normalised text, list of rewrites).  Raises NotLeafShaped.
+    `lenient` (system functions, src/sys/mod.rs) additionally accepts a statement that pops one value and
+    immediately converts it (`env.pop(1)?.as_string(env, "…")?`): it becomes the pop followed by an opaque
+    fallible step; `.map_err(|e| env.error(e))` (error conversion, reads `env` only) is dropped first."""
     log = []
     text = body.strip()
     if not is_block:
@@ -47,10 +55,41 @@ def normalise(body, is_block):
         if st:
             stmts.append(st)
         i = j + 1
+    popped = set()
     for st in stmts:
         st1 = re.sub(r"^\s*//[^\n]*\n", "", st, flags=re.M).strip()
         if not st1:
             continue
+        if lenient:
+            st2 = _MAPERR.sub("", st1)
+            st2 = re.sub(r"\(env\.rt\.backend\)", "env.rt.backend", st2)
+            st2 = re.sub(r"\s*\n\s*\.", ".", st2)
+            if st2 != st1:
+                log.append("R8: `.map_err(|e| env.error(e))` dropped (error conversion)")
+                st1 = st2
+            mp = re.fullmatch(r"let (?:mut )?(\w+) = env\.pop\([^()]*\)\?", st1)
+            if mp:
+                popped.add(mp.group(1))
+                out.append(f"let {mp.group(1)} = env.pop(1)?;")
+                continue
+            mpush = re.fullmatch(r"env\.push\((\w+)(\.clone\(\))?\)", st1)
+            if mpush and mpush.group(1) not in popped:
+                log.append(f"R8: pushed expression {mpush.group(1)!r} -> opaque value")
+                out.append("env.push(opaque_value());")
+                continue
+            pops = _POP.findall(st1)
+            if len(pops) == 1 and not re.fullmatch(r"(let (mut )?\w+ = )?env\.pop\([^()]*\)\?", st1):
+                rest = _POP.sub("POPPED", st1)
+                if _CTRL.search(rest):
+                    raise NotLeafShaped(f"pop-and-convert statement with control flow / stack traffic: {st1[:50]!r}")
+                for meth in calls_with_env(rest):
+                    if takes_mut_env(meth):
+                        raise NotLeafShaped(f"callee `{meth}` takes `&mut Uiua`")
+                out.append("env.pop(1)?;")
+                if "?" in rest:
+                    out.append("opaque_unit()?;")
+                log.append(f"R8: {st1[:60]!r} -> pop followed by an opaque " + ("fallible step" if "?" in rest else "conversion"))
+                continue
         if re.fullmatch(r"(let (mut )?\w+ = )?env\.pop\([^()]*\)\?", st1):
             out.append(st1 + ";")
         elif re.fullmatch(r"env\.require_height\(\d+\)\?", st1):
@@ -80,7 +119,7 @@ def normalise(body, is_block):
                 raise NotLeafShaped(f"statement is not a method call on a value: {st1[:50]!r}")
             if re.search(r"\benv\.\w+\(", rhs):
                 raise NotLeafShaped(f"calls a method of the interpreter itself (may use the stack): {st1[:50]!r}")
-            for meth in re.findall(r"\.(\w+)\(", rhs):
+            for meth in (calls_with_env(rhs) if lenient else re.findall(r"\.(\w+)\(", rhs)):
                 if re.search(r"\(.*\benv\b", rhs, re.S) and takes_mut_env(meth):
                     raise NotLeafShaped(f"callee `{meth}` takes `&mut Uiua`")
             fallible = rhs.rstrip().endswith("?")
@@ -90,6 +129,28 @@ def normalise(body, is_block):
             else:
                 out.append("opaque_unit()?;" if fallible else "opaque_unit_infallible();")
     return "".join("        " + o + "\n" for o in out), log
+
+
+def calls_with_env(text):
+    """names of the functions / methods called in `text` whose argument list mentions `env`"""
+    out = []
+    for m in re.finditer(r"\b([a-z_]\w*)\(", text):
+        out.append((m.group(1), m.end() - 1))
+    res = []
+    for name, i in out:
+        depth = 0
+        j = i
+        while j < len(text):
+            if text[j] == "(":
+                depth += 1
+            elif text[j] == ")":
+                depth -= 1
+                if depth == 0:
+                    break
+            j += 1
+        if re.search(r"\benv\b", text[i:j + 1]):
+            res.append(name)
+    return res
 
 
 _SIGS = None
@@ -145,6 +206,28 @@ def arm_names():
     return [l.strip() for l in open(p) if l.strip() and not l.startswith("#")]
 
 
+def sys_arm_names():
+    p = os.path.join(VERIF, "contracts", "verus", "leaf_sys_arms.txt")
+    return [l.strip() for l in open(p) if l.strip() and not l.startswith("#")]
+
+
+def discover_sys():
+    """(maintenance) list the arms of run_sys_op (src/sys/mod.rs) that are leaf-shaped on the current tree"""
+    src = open(os.path.join(REPO, "src", "sys", "mod.rs")).read()
+    info = extract.find_fn(src, "run_sys_op")
+    body = src[info["body_start"]:info["body_end"]]
+    names = re.findall(r"(?m)^        SysOp::(\w+) => ", body)
+    ok, bad = [], []
+    for n in names:
+        try:
+            abody, is_block, span = extract.find_arm(src, r"SysOp::" + n, info["body_start"], info["body_end"])
+            normalise(abody, is_block, lenient=True)
+            ok.append(n)
+        except (NotLeafShaped, extract.AnchorLost) as ex:
+            bad.append((n, str(ex)))
+    return ok, bad
+
+
 def discover():
     """(maintenance) list the arms of run_prim_func that are leaf-shaped on the current tree"""
     src = open(os.path.join(REPO, "src", "run_prim.rs")).read()
@@ -162,7 +245,14 @@ def discover():
     return ok, bad
 
 
-if __name__ == "__main__":
+if __name__ == "__main__" and len(__import__("sys").argv) > 1 and __import__("sys").argv[1] == "sys":
+    ok, bad = discover_sys()
+    print(len(ok), "leaf-shaped;", len(bad), "not:")
+    for n, why in bad:
+        print("   ", n, "-", why)
+    open(os.path.join(VERIF, "contracts", "verus", "leaf_sys_arms.txt"), "w").write(
+        "# arms of run_sys_op (src/sys/mod.rs) under the C02 leaf contract; generated once by `lib/leafarms.py sys`, then fixed\n" + "\n".join(ok) + "\n")
+elif __name__ == "__main__":
     ok, bad = discover()
     print(len(ok), "leaf-shaped;", len(bad), "not:")
     for n, why in bad:
